@@ -12,3 +12,6 @@ import TrackVerif.Conv.Driver
 import TrackVerif.Conv.PropsC03
 import TrackVerif.Conv.PropsC11
 import TrackVerif.Conv.PropsC12
+import TrackVerif.GP.Driver
+import TrackVerif.GP.PropsC04
+import TrackVerif.GP.PropsC05
